@@ -163,6 +163,16 @@ CHECKS = {
         "assumptions": ["instances are in general position by construction (two instances never share a transform); coincident instances of one original are not generated",
                         "property fields are affine in position, or arbitrary per vertex with per-triangle face IDs - the two cases in which the statement promises exact interpolation"],
     },
+    "C20": {
+        "subs": [
+            {"name": "cbinding", "bin": "c20_cbinding", "variant": "cbind",
+             "env": {"ASAN_OPTIONS": "detect_leaks=1:leak_check_at_exit=0:abort_on_error=0:exitcode=77:allocator_may_return_null=1:quarantine_size_mb=8:malloc_context_size=6"},
+             "quick": {"n": 32000, "size": 100}, "thorough": {"n": 400000, "size": 160}},
+        ],
+        "assumptions": ["manifold_compose is mirrored by BatchBoolean(Add): Manifold::Compose is deprecated in manifold.h in favour of exactly that call, which is what the binding does",
+                        "error codes that no C entry point can produce (PropertiesWrongLength, MergeVectorsDifferentLengths, TransformWrongLength, FaceIDWrongLength, ResultTooLarge) are not reached; the others are produced by malformed arrays, bad constructor arguments and cancelled contexts",
+                        "both twins run in one process on the serial backend; mesh IDs come from one global counter and are compared up to relabelling by first appearance"],
+    },
 }
 
 PBT = "property-based testing (rapidcheck byte-tape generators, shrinking, replay files)"
@@ -207,4 +217,6 @@ MANIFEST_TEXT["C04"] = {"text": "byte fingerprints of every exported field compa
                         "note": "schedules and programs sampled; large (>1e5) class only in the thorough tier", "technique": PBT + " differential testing across schedules/backends with a schedule-owning TBB replacement"}
 MANIFEST_TEXT["C07"] = {"text": "exported runs, transforms, face IDs, orientation and per-corner property values of Boolean/Refine results judged against harness-built originals (reserved IDs, face IDs, affine or per-vertex property fields) and the generated instance transforms",
                         "note": "sampled programs of 2-4 instances; geometry checked at every corner of every triangle", "technique": PBT + " against a reference model of provenance (inputs + generated transforms)"}
+MANIFEST_TEXT["C20"] = {"text": "generated programs of C API calls mirrored call-for-call in C++; every result read back through the C accessors into exact-size buffers and compared bitwise with the C++ twin; storage is exactly <type>_size() bytes (or manifold_alloc_*), every object destructed/deleted once; allocations made inside C calls tracked by sanitizer malloc hooks and confirmed with LeakSanitizer; callbacks verify the user pointer; under ASan+UBSan",
+                        "note": "sampled programs of 3-14 steps; covers every exported function group except none (see evidence counters fn:*)", "technique": PBT + " as a differential test against the C++ API"}
 NOT_CLAIMED = {}
